@@ -331,6 +331,16 @@ func conflictAtoms() []ConflictAtom {
 		ss[1].addType("PI2", "", "name: String")
 		ss[1].Query = append(ss[1].Query, "pi21: PI2")
 	}, true})
+	for _, other := range []string{"id: String!", "id: Int!", "id(format: String): ID!"} {
+		other := other
+		// a shared plain type whose only common field is id, with different signatures (other fields disjoint)
+		out = append(out, ConflictAtom{"shared-type-id-signature-differs:" + other, func(ss []*SvcSpec) {
+			ss[0].addType("PI3", "", "id: ID!", "a: Int")
+			ss[0].Query = append(ss[0].Query, "pi30: PI3")
+			ss[1].addType("PI3", "", other, "b: Int")
+			ss[1].Query = append(ss[1].Query, "pi31: PI3")
+		}, true})
+	}
 	out = append(out, ConflictAtom{"node-type-duplicate-field", func(ss []*SvcSpec) { ss[1].Types["N1"] = append(ss[1].Types["N1"], "name: String") }, true})
 	out = append(out, ConflictAtom{"shared-type-partial-overlap", func(ss []*SvcSpec) {
 		ss[0].addType("P", "", "a: Int", "b: Int")
@@ -438,7 +448,7 @@ func mergeJobs(tier string, prop string) []string {
 	if prop == "C05" {
 		dw--
 	}
-	ws := EnumWorlds(bases, dw, 0)
+	ws := EnumMergeWorlds(bases, dw)
 	// chunk the world list into jobs
 	chunk := 200
 	var jobs []string
@@ -451,7 +461,7 @@ func mergeJobs(tier string, prop string) []string {
 func worldsOfJob(job string) []WorldDesc {
 	var from, to, dw int
 	fmt.Sscanf(job, "%d-%d/dw%d", &from, &to, &dw)
-	ws := EnumWorlds([]string{"Wmin", "W0"}, dw, 0)
+	ws := EnumMergeWorlds([]string{"Wmin", "W0"}, dw)
 	return ws[from:to]
 }
 
